@@ -87,6 +87,17 @@ fn check_packet<P: Pid>(ep: &str, ver: Ver, ty: u8, flags: u8, body: &[u8], acc:
                 if used != bytes.len() {
                     v.push(("c04.remaining-length", "rl".into(), format!("the serialisation's Remaining Length frames {} bytes, {} follow ({})", used, bytes.len(), hex_trunc(&bytes, 32))));
                 } else {
+                    // "accepted input is canonical and valid": what the parser consumed is the packet's own
+                    // encoding, or at least a conformant alternative encoding of it (strict reference decoder) -
+                    // not bytes that the parser silently repaired
+                    let given = &body[..consumed.min(body.len())];
+                    if b2 != given && rc::decode_body(ver, ty, flags, given, P::W).is_err() {
+                        let i = b2.iter().zip(given.iter()).position(|(x, y)| x != y).unwrap_or(b2.len().min(given.len()));
+                        // (one known leniency has its own class: a v5.0 PUBLISH body that ends before the
+                        // mandatory Property Length byte is read as "no properties, no payload")
+                        let class = if ty == 3 && ver == Ver::V5 && b2.len() == given.len() + 1 && b2[..given.len()] == *given && b2[given.len()] == 0 { "publish-without-property-length".to_string() } else { format!("body+{i}") };
+                        v.push(("c04.noncanonical-input", class, format!("the parser accepts {} but the packet it returns serialises to {} - the input is not a conformant encoding, it was silently normalised", hex_trunc(given, 24), hex_trunc(&b2, 24))));
+                    }
                     match bridge::parse_body::<P>(ver, t2, f2, &b2) {
                         Some(Ok((p2, _))) => {
                             if p2 != p {
